@@ -276,6 +276,80 @@ Section Proofs.
     now rewrite (run_without_failed _ _ _ _ _ _ _ _ Hr).
   Qed.
 
+  (* ---------- generalisation: any class of items that leave state and placeholder alone
+                (failed items, items that only read) can be removed from the batch ---------- *)
+  Section Kept.
+    Variable keep : item I -> result -> bool.
+    Notation kept := (kept I keep).
+    Notation kept_results := (kept_results I keep).
+    (* a dropped item left everything as it was ... *)
+    Hypothesis dropped_frame : forall h s p it o s' p',
+        handle h s p it = (o, s', p') -> keep it (mk_result it o) = false -> s' = s /\ p' = p.
+    (* ... and only successful items are kept (so that Stop does not cut the reduced batch short) *)
+    Hypothesis kept_ok : forall it o, keep it (mk_result it o) = true -> is_ok o = true.
+
+    Lemma kept_nil_r : forall its, kept its [] = [].
+    Proof. destruct its; reflexivity. Qed.
+
+    Lemma run_kept : forall h c its s p rs s' p',
+        run h c s p its = (rs, s', p') ->
+        run h c s p (kept its rs) = (kept_results its rs, s', p').
+    Proof.
+      induction its as [|it rest IH]; intros s p rs s' p' H; simpl in H.
+      - inversion H; subst. reflexivity.
+      - destruct (handle h s p it) as [[o s1] p1] eqn:Hh.
+        destruct (keep it (mk_result it o)) eqn:Hk.
+        + assert (Hok := kept_ok _ _ Hk). rewrite Hok in H. simpl in H.
+          destruct (run h c s1 p1 rest) as [[rs2 s2] p2] eqn:Hr.
+          inversion H; subst. simpl. rewrite Hk. simpl. rewrite Hh, Hok. simpl.
+          now rewrite (IH _ _ _ _ _ Hr).
+        + destruct (dropped_frame _ _ _ _ _ _ _ Hh Hk) as [-> ->].
+          destruct (negb (is_ok o) && negb c).
+          * inversion H; subst. simpl. rewrite Hk, kept_nil_r. destruct rest; reflexivity.
+          * destruct (run h c s p rest) as [[rs2 s2] p2] eqn:Hr.
+            inversion H; subst. simpl. rewrite Hk. eauto.
+    Qed.
+
+    Lemma existsb_kept : forall (f : item I -> bool) its rs,
+        existsb f its = false -> existsb f (kept its rs) = false.
+    Proof.
+      induction its as [|it its IH]; intros rs H; [reflexivity|].
+      simpl in H. apply orb_false_iff in H. destruct H as [H1 H2].
+      destruct rs as [|r rs]; [reflexivity|]. simpl.
+      destruct (keep it r); simpl.
+      - rewrite H1. simpl. now apply IH.
+      - now apply IH.
+    Qed.
+
+    Lemma kept_length : forall its rs, (length (kept its rs) <= length its)%nat.
+    Proof.
+      induction its as [|it its IH]; intros rs; [simpl; lia|].
+      destruct rs as [|r rs]; [simpl; lia|]. simpl.
+      destruct (keep it r); simpl; specialize (IH rs); lia.
+    Qed.
+
+    Lemma check_ids_kept : forall its rs, check_ids its = None -> check_ids (kept its rs) = None.
+    Proof.
+      unfold Generic.check_ids. intros its rs H.
+      destruct (1 <? Z.of_nat (length its)) eqn:Hn; simpl in H.
+      - destruct (existsb _ its) eqn:He; [discriminate|].
+        rewrite (existsb_kept _ _ rs He). now rewrite andb_false_r.
+      - assert (Hl := kept_length its rs).
+        assert (1 <? Z.of_nat (length (kept its rs)) = false) as -> by (apply Z.ltb_ge; apply Z.ltb_ge in Hn; lia).
+        reflexivity.
+    Qed.
+
+    Theorem process_kept : forall st h its rs st',
+        process_request st h its = (inr rs, st') ->
+        process_request st h (kept its rs) = (inr (kept_results its rs), st').
+    Proof.
+      intros st h its rs st' H.
+      destruct (process_results _ _ _ _ _ H) as [Hh [Hi [s' [p' [Hr ->]]]]].
+      unfold Generic.process_request. rewrite Hh, (check_ids_kept _ rs Hi).
+      now rewrite (run_kept _ _ _ _ _ _ _ _ Hr).
+    Qed.
+  End Kept.
+
   Hypothesis close_open : forall st, close_session (open_session st) = st.
 
   Theorem process_all_failed_no_trace : forall st h its rs st',
